@@ -46,6 +46,7 @@ import TelProofs.Tseitin
 import TelProofs.DocEq
 import TelProofs.Meta.DefExt
 import TelProofs.StepDataProofs
+import TelProofs.TheoryCallProofs
 import TelProofs.ClauseProofs
 import TelProofs.NextLifeProofs
 
@@ -165,6 +166,31 @@ theorem occurrences_follow (ops : List SDOp) (s : LitSource) (v : Nat → Bool)
 theorem formula_literal_stable (ops : List SDOp) (d : StepData) (l : Int) (h : d.literal = some l) :
     (d.run ops).1.literal = some l :=
   SD.literal_stable ops d l h
+
+/-- Composition with the todo list over any number of `Theory.translate` calls (model `TheoryCall`; `GoodCall` — every queued
+    pair is translated before the call returns, and the operations of the second loop on a pair are none or end with a
+    translation — is checked on every call of the real method): every ground theory atom met in any call is the literal of its
+    (formula, step) pair or has both clauses of the equivalence with it written, also when it turns up only after an earlier
+    call has translated the pair. -/
+theorem theory_atoms_equated (calls : List TheoryCall) (hg : ∀ p ∈ calls, TC.GoodCall p) (k : TodoKey) (a : Int)
+    (ha : ∃ p ∈ calls, (k, a) ∈ p.atoms) :
+    ∃ l, (StepData.run {} (projKey k (TC.runOps calls))).1.literal = some l ∧
+      (a = l ∨ ∀ c ∈ makeEqual a l, SDOut.clause c ∈ (StepData.run {} (projKey k (TC.runOps calls))).2) :=
+  TC.theory_atoms_equated calls hg k a ha
+
+/-- `GoodCall` is satisfiable: a call with one theory atom whose pair is translated -/
+example : TC.GoodCall { atoms := [((0, "(a())"), 5)], pending := [], body := [((0, "(a())"), .translate (.assign 3))] } := by
+  refine ⟨?_, ?_⟩
+  · intro k hk
+    have : k = (0, "(a())") := by
+      have := ((todo_exactly_once [(0, "(a())")]).2 k).mp (by simpa [TheoryCall.queue] using hk)
+      simpa using this
+    subst this
+    exact ⟨.assign 3, by simp⟩
+  · intro k
+    by_cases h : ((0, "(a())") : TodoKey) == k
+    · right; exact ⟨[], .assign 3, by simp [projKey, h]⟩
+    · left; simp [projKey, h]
 
 /-- an occurrence that is registered after the pair has been translated (a later `Theory.translate` call) is equated by the
     next translation: registrations 5, translation (5 becomes the representative), registration 7, translation -/
